@@ -246,7 +246,8 @@ func newSampler(typ int, fields []string, utl bool, rate int) sample.Sampler {
 // one set of samplers per worker (a trace key builder is not goroutine safe — in Refinery each collector
 // worker owns its samplers too)
 type samplerSet struct {
-	s [][]sample.Sampler // [cfg][type]
+	s    [][]sample.Sampler  // [cfg][type]
+	seen map[string]struct{} // non-trivial cases this worker already reported (saves the run-global lock)
 }
 
 var cfgs []keyCfg
@@ -258,7 +259,7 @@ func getSet() *samplerSet {
 		return s
 	default:
 	}
-	ss := &samplerSet{}
+	ss := &samplerSet{seen: map[string]struct{}{}}
 	for _, c := range cfgs {
 		var row []sample.Sampler
 		for typ := range typeNames {
@@ -279,11 +280,18 @@ type rep struct {
 }
 
 type store struct {
-	mu sync.Mutex
+	mu sync.RWMutex
 	m  map[string]map[string]rep // a -> b -> minimal representative
 }
 
 func (s *store) add(a, b string, order int64, t traceD) {
+	// fast path (shared lock): the pair is known with an earlier representative — the overwhelmingly common case
+	s.mu.RLock()
+	if r, ok := s.m[a][b]; ok && r.order <= order {
+		s.mu.RUnlock()
+		return
+	}
+	s.mu.RUnlock()
 	s.mu.Lock()
 	in := s.m[a]
 	if in == nil {
@@ -338,7 +346,11 @@ func evalTrace(r *ev.Run, ss *samplerSet, t traceD, order int64) {
 			}
 		}
 		if elig {
-			r.Distinct("distinct_nontrivial", c.name+"|"+vs)
+			k := c.name + "|" + vs
+			if _, ok := ss.seen[k]; !ok {
+				ss.seen[k] = struct{}{}
+				r.Distinct("distinct_nontrivial", k)
+			}
 		}
 	}
 }
@@ -610,7 +622,7 @@ func main() {
 	}
 	phases := []phase{{1, mk(fFull, gFull)}, {2, mk(fFull, gFull)}, {3, mk(fFull, gFull)}, {4, mk(fSmall, gSmall)}}
 	if r.Thorough() {
-		phases = append(phases, phase{4, mk(fFull, gFull)}, phase{5, mk(fSmall, gSmall)})
+		phases = append(phases, phase{4, mk(fFull, gSmall)}, phase{5, mk(fSmall, gSmall)})
 	}
 	var bounds []string
 	for _, ph := range phases {
